@@ -12,6 +12,8 @@ import (
 	"time"
 
 	"github.com/kercylan98/vivid"
+	"github.com/kercylan98/vivid/internal/mailbox"
+	"github.com/kercylan98/vivid/pkg/ves"
 	vsimrt "vsimrt/simrt"
 )
 
@@ -211,6 +213,17 @@ func c03Accounting(r *R) {
 					vsimrt.Sleep(10 * time.Millisecond)
 					send(name, seq, o.target, "terminated", nil)
 					seq++
+					if r.Chance(40) {
+						// a user message is a user message whatever its type: an actor that forwards the dead letters it collects
+						// sends values of the library's own ves.DeathLetterEvent type. Told to an actor that no longer runs, such a
+						// message is undeliverable like any other and is owed its dead letter.
+						r.Count("tell-terminated-a-DeathLetterEvent-value")
+						ref, how := refFor(o.target)
+						c := w.NewCmd("dlwrap:"+name, seq, nil)
+						seq++
+						w.noteSent(c.ID, o.target, how, "terminated", "main")
+						w.Sys.Tell(ref, ves.DeathLetterEvent{Envelope: mailbox.NewEnvelop(false, nil, ref, c), Time: vsimrt.Now()})
+					}
 				}
 			}
 		})
